@@ -41,6 +41,9 @@ def directed(mc):
             h("dbg", org, alloc, 0, 0, "dims 0 1 0 3 2 1", "dims 1 2 0 4 4 1", "massign 0 1", "write 0 1 1 0", "dims 2 0 8 2 2 1", "massign 2 0", "massign 1 2", "destroy 1")
             h("dbg", org, alloc, 0, 0, "dims 0 2 4 5 3 1", "dflt 1 1 0", "massign 0 1", "dims 2 0 0 1 1 0", "massign 1 2", "massign 2 0")
             h("dbg", org, alloc, 0, 0, "dims 0 1 0 3 2 1", "dims 1 2 0 4 4 0", "move 2 1", "massign 0 2", "massign 2 0", "swap 0 0")
+        # move assignment from a degenerate source (0 x 2 / 5 x 0: no storage) into a non-empty target with another allocator instance
+        h("dbg", "rgb8", alloc, 0, 0, "dims 0 1 0 3 2 1", "dims 1 2 0 0 2 1", "massign 0 1", "destroy 1", "rec 0 2 2 0 1")
+        h("dbg", "gray16", alloc, 0, 0, "dims 0 2 4 3 2 1", "dims 1 1 1 5 0 1", "massign 0 1", "copy 2 0")
         # alignment recorded before a throwing allocation, then recreate(same dims, that alignment) returns early
         h("dbg", "rgb8", alloc, 2, 0, "dims 0 0 0 3 2 7", "rec 0 8 8 16 3", "rec 0 3 2 16 3")
         h("dbg", "gray16", alloc, 2, 0, "fill 0 0 0 3 3 7", "recf 0 8 8 4 32", "recf 0 3 3 4 32")
@@ -173,6 +176,13 @@ def degenerate_keeps_dims(ctx):
     m = re.search(r"void allocate_\(point_t const& dimensions, std::false_type\)(.*?)_memory\s*=\s*_alloc\.allocate", text, re.S)
     return bool(m and "create_view" in m.group(1))
 
+def move_assign_keeps_dims(ctx):
+    """source-selected model variant: does move_assign(no_propagate), source without storage, build a view of the source's dimensions?"""
+    try: text = open(os.path.join(ctx.include, "boost/gil/image.hpp")).read()
+    except OSError: return False
+    m = re.search(r"void move_assign\(image& img, no_propagate_allocators\)(.*?)\n  public:", text, re.S)
+    return bool(m and re.search(r"create_view\(img\.dimensions\(\)", m.group(1)))
+
 def compile_all(ctx, mc, elem_ok=True):
     defines = (["C10_ELEM_MASSIGN_COMPILES"] if mc else []) + ([] if elem_ok else ["C10_NO_ELEM"])
     def one(b):
@@ -187,8 +197,9 @@ def run(ctx, ops=None):
     obligations, discharged = vlib.standard_proof_steps(ctx)
     # compile probe (an observation, DESIGN.md 9: template selection is observed, not proven)
     pb, perr = vlib.compile_harness(ctx, "harness/C10/probe_massign.cpp", name="C10_probe", sanitize=False, opt="-O0")
-    dg = 1 if degenerate_keeps_dims(ctx) else 0
-    ctx.cov["source_variant_degenerate_image_keeps_dimensions"] = bool(dg)
+    dg = (1 if degenerate_keeps_dims(ctx) else 0) + (2 if move_assign_keeps_dims(ctx) else 0)
+    ctx.cov["source_variant_degenerate_image_keeps_dimensions"] = bool(dg & 1)
+    ctx.cov["source_variant_move_assign_takes_dimensions_of_storageless_source"] = bool(dg & 2)
     mc = "%d %d" % (1 if pb else 0, dg)          # the two tree flags of the history header: <mc> <dg>
     ctx.cov["probe_elem_move_assign_compiles"] = bool(pb)
     pe, _ = vlib.compile_harness(ctx, "harness/C10/probe_elem.cpp", name="C10_probe_elem", sanitize=False, opt="-O0")
